@@ -64,7 +64,7 @@ func runC19(c *core.Ctx) core.Meta {
 	p := NewPkgInfo(c, pmcPkg)
 	RunProto(c, &ProtoCfg{
 		AllEffectsAfterSend: true,
-		RuleBase: "R19.1.pmc", Pkg: pmcPkg, FloorSends: 5,
+		RuleBase:            "R19.1.pmc", Pkg: pmcPkg, FloorSends: 5,
 		Effects: []Effect{
 			RetrieveEffect,
 			FieldWriteEffect("isHandlingPageMigration-write", "PageMigrationController.isHandlingPageMigration"),
@@ -279,7 +279,7 @@ func runC19(c *core.Ctx) core.Meta {
 	pc := NewPkgInfo(c, cpPkg)
 	RunProto(c, &ProtoCfg{
 		AllEffectsAfterSend: true,
-		RuleBase: "R19.1.cp", Pkg: cpPkg, FloorSends: 13,
+		RuleBase:            "R19.1.cp", Pkg: cpPkg, FloorSends: 13,
 		Effects:   []Effect{RetrieveEffect},
 		SkipRoots: cpSequencers,
 		OnlyFuncs: func(name string) bool { return strings.HasPrefix(name, "ctrlMiddleware.") },
@@ -297,7 +297,7 @@ func runC19(c *core.Ctx) core.Meta {
 	pd := NewPkgInfo(c, driverPkg)
 	RunProto(c, &ProtoCfg{
 		AllEffectsAfterSend: true,
-		RuleBase: "R19.1.driver", Pkg: driverPkg, FloorSends: 3,
+		RuleBase:            "R19.1.driver", Pkg: driverPkg, FloorSends: 3,
 		Effects: []Effect{
 			RetrieveEffect,
 			FieldWriteEffect("requestsToSend-write", "Driver.requestsToSend"),
